@@ -23,7 +23,8 @@ var (
 		"1.0.0.0.0.0.0.0.0.0.0.0.0.0.0.0.0.0.0.0.0.0.0.0.0.0.0.0.0.0.0.0.ip6.arpa", "8.8.8.8.0.0.0.0.0.0.0.0.0.0.0.0.0.0.0.0.0.6.8.4.0.6.8.4.1.0.0.2.ip6.arpa",
 		"1.0.0.0.0.0.0.0.0.0.0.0.0.0.0.0.0.0.0.0.0.0.0.0.8.b.d.0.1.0.0.2.ip6.arpa", "1.0.0.0.0.0.0.0.0.0.0.0.0.0.0.0.0.0.0.0.0.0.0.0.0.0.0.0.0.8.e.f.ip6.arpa", "b.a.9.8.ip6.arpa", "g.0.0.0.0.0.0.0.0.0.0.0.0.0.0.0.0.0.0.0.0.0.0.0.0.0.0.0.0.0.0.0.ip6.arpa",
 		"facebookcorewwwi.onion", "pg6mmjiyjmcrsslvykfwnntlaru7p5svn6y2ymmju6nubxndf4pscryd.onion", "www.pg6mmjiyjmcrsslvykfwnntlaru7p5svn6y2ymmju6nubxndf4pscryd.onion", "*.facebookcorewwwi.onion", "short.onion",
-		"xn--mnchen-3ya.de", "xn--bcher-kva.example", "xn--example-tge.com", "www.xn--cafe-yvc.example.com", "xn--.com", "XN--MNCHEN-3YA.de", "a.xn--zz.com", "example.de", "example.zuerich", "example.co", "example.cm", "*.example.de", "www.example.org", "org",
+		"xn--mnchen-3ya.de", "xn--bcher-kva.example", "xn--example-tge.com", "www.xn--cafe-yvc.example.com", "xn--j-kcb.example.com", "xn--J-kcb.example.com",
+		strings.Repeat("a.", 130) + "example.com", strings.Repeat("a.", 130) + ".example.com", strings.Repeat("a.", 140) + "com.", strings.Repeat("a.", 126) + "b..com", strings.Repeat("a.", 127) + "b..com", "xn--.com", "XN--MNCHEN-3YA.de", "a.xn--zz.com", "example.de", "example.zuerich", "example.co", "example.cm", "*.example.de", "www.example.org", "org",
 		"example.com..", "..", "a.com.", "a_b.example.de", "-x.example.de", "x-.example.de", "9.example.com", "1.2.3.4.5", "a.1", "example.c0m", "*.xn--mnchen-3ya.de", "*a.example.com", "a*.example.com", "*.*", "www.*.com"}
 	EmailDict = []string{"a@b.com", "user@example.com", "bad", "a@b@c", "", "A <a@b.com>", "a@localhost", "a@[1.2.3.4]", " a@b.com", "a@b.com ", "\xc3\xa9@b.com", "a@a_b.com"}
 	URIDict   = []string{"http://example.com/", "https://example.com/x?y", "urn:x:y", "http://[::1]/", "http://[2001:db8::1]:80/x", "ldap://ldap.example.com/cn=x", "//x", "", "http://", "mailto:a@b.com",
